@@ -86,6 +86,18 @@ def run(chk, scratch):
         # the same comparison with the in-memory alignment storage (--high_memory): reference and split run both use it
         runs.append(("ref-hm", ["-g", gtf, "--complete_genedb", "--high_memory", "--bam", bam], "home_ref_hm", None))
         runs.append(("bam-random3-hm", ["-g", gtf, "--complete_genedb", "--high_memory", "--bam"] + parts["random3"], "home_random3_hm", "alignments-hm"))
+        # the reference genome compressed with plain gzip (IsoQuant works on an uncompressed copy it writes into the output folder): in a fresh
+        # output folder, and in a folder used before for a run on ANOTHER genome whose file has the same name
+        os.makedirs(os.path.join(d, "gz"), exist_ok=True)
+        os.makedirs(os.path.join(d, "other"), exist_ok=True)
+        with open(os.path.join(d, "g.fa"), "rb") as f, gzip.open(os.path.join(d, "gz", "g.fa.gz"), "wb") as g:
+            g.write(f.read())
+        comp = bytes.maketrans(b"ACGTacgt", b"CATGcatg")
+        with open(os.path.join(d, "g.fa"), "rb") as f, gzip.open(os.path.join(d, "other", "g.fa.gz"), "wb") as g:
+            for line in f:
+                g.write(line if line.startswith(b">") else line.translate(comp))
+        runs.append(("reference-gz", ["-r", os.path.join(d, "gz", "g.fa.gz"), "-g", gtf, "--complete_genedb", "--bam", bam], "home_rgz", "reference"))
+        runs.append(("reference-gz-used-folder", ["-r", os.path.join(d, "gz", "g.fa.gz"), "-g", gtf, "--complete_genedb", "--bam", bam], "home_rgz2", "reference"))
         # the reference run first (it also fills the cache used by 'cached')
         outs = {}
 
@@ -93,7 +105,14 @@ def run(chk, scratch):
             name, args, home, kind = rn
             out = os.path.join(d, "out_" + name)
             ev = out + "_ev"
-            r = runner.run_isoquant(["-o", out] + base + args, os.path.join(d, home), mon=["merge"], events=ev)
+            b = list(base)
+            if "-r" in args:
+                del b[b.index("-r"):b.index("-r") + 2]
+            if name == "reference-gz-used-folder":
+                # an earlier run into the same folder on another genome (same file name, other content)
+                runner.run_isoquant(["-o", out] + b + ["-r", os.path.join(d, "other", "g.fa.gz"), "-g", gtf, "--complete_genedb", "--bam", parts["bychrom"][0],
+                                                       "--no_model_construction"], os.path.join(d, home))
+            r = runner.run_isoquant(["-o", out] + b + args, os.path.join(d, home), mon=["merge"], events=ev)
             return rn, out, ev, r
         first = one(runs[0])
         rest = runner.parallel(one, [r for r in runs[1:] if r[0] not in ("cached", "clean-start")], workers=6)
@@ -134,7 +153,11 @@ def run(chk, scratch):
                 if "ref-hm" not in outs:
                     continue
                 a_dir = os.path.join(outs["ref-hm"], pipeline.PREFIX)
-            if kind in ("annotation", "annotation-cache"):
+            if kind == "reference":
+                for rel, why in runner.compare_trees(a_dir, b_dir):
+                    chk.violation("reference-representation-changes-output:%s:%s" % (name, rel.split(".", 1)[1] if "." in rel else rel),
+                                  "world=%d: %s %s between the run on the plain FASTA and %s" % (seed, rel, why, name), wit)
+            elif kind in ("annotation", "annotation-cache"):
                 for rel, why in runner.compare_trees(a_dir, b_dir):
                     chk.violation("annotation-representation-changes-output:%s:%s" % (name, rel.split(".", 1)[1] if "." in rel else rel),
                                   "world=%d: %s %s between the reference run and %s" % (seed, rel, why, name), wit)
